@@ -31,6 +31,7 @@ type tierSpec struct {
 	SelectChoice bool         `json:"selectchoice"`
 	EnvLazy    bool           `json:"envlazy"`
 	NPBound    int            `json:"npbound"`
+	Race       bool           `json:"race"`
 	Skip       bool           `json:"skip"`
 	Witnesses  int            `json:"witness_replays"`
 }
@@ -142,7 +143,7 @@ var harnessFuncRe = regexp.MustCompile(`(?m)^func (verif[A-Za-z0-9_]+)\(\)`)
 
 // buildNative compiles the package's test binary with harness files overlaid
 // and all of the package's own *_test.go files removed.
-func buildNative(repoDir, relDir, outDir string) *nativeBuild {
+func buildNative(repoDir, relDir, outDir string, race bool) *nativeBuild {
 	nb := &nativeBuild{dir: relDir}
 	sub := "root"
 	pdir := repoDir
@@ -199,7 +200,12 @@ func buildNative(repoDir, relDir, outDir string) *nativeBuild {
 	ovFile := filepath.Join(outDir, "overlay_"+sub+".json")
 	os.WriteFile(ovFile, ovb, 0644)
 	nb.bin = filepath.Join(outDir, "replay_"+sub+".test")
-	cmd := exec.Command("go", "test", "-c", "-vet=off", "-tags=verif", "-overlay", ovFile, "-o", nb.bin, "./"+relDir)
+	args := []string{"test", "-c", "-vet=off", "-tags=verif", "-overlay", ovFile, "-o", nb.bin}
+	if race {
+		nb.bin = filepath.Join(outDir, "replay_"+sub+"_race.test")
+		args = []string{"test", "-c", "-race", "-vet=off", "-tags=verif", "-overlay", ovFile, "-o", nb.bin}
+	}
+	cmd := exec.Command("go", append(args, "./"+relDir)...)
 	cmd.Dir = repoDir
 	cmd.Env = append(os.Environ(), "GOFLAGS=-mod=mod", "GOPROXY=off", "GOSUMDB=off", "GOTOOLCHAIN=local")
 	out, err := cmd.CombinedOutput()
@@ -220,6 +226,7 @@ type nativeResult struct {
 	Ended       bool
 	Observes    []string
 	ExitCode    int
+	RaceReport  string
 }
 
 func runNative(nb *nativeBuild, repoDir string, doc *replayDoc, replayFile string, timeout time.Duration) *nativeResult {
@@ -271,6 +278,8 @@ func runNative(nb *nativeBuild, repoDir string, doc *replayDoc, replayFile strin
 			res.TimedOut = true
 		case strings.HasPrefix(line, "VERIF-DEADLOCK"):
 			res.TimedOut = true
+		case strings.HasPrefix(line, "WARNING: DATA RACE"):
+			res.RaceReport = res.Output
 		case strings.HasPrefix(line, "panic: ") || strings.HasPrefix(line, "fatal error: "):
 			if !res.Panicked {
 				res.Panicked = true
@@ -292,6 +301,20 @@ func reproduced(v *Violation, nr *nativeResult) bool {
 		return nr.Panicked && !nr.TimedOut
 	case "deadlock":
 		return nr.TimedOut
+	case "race":
+		// the Go race detector reports a race at one of the two source lines
+		if nr.RaceReport == "" {
+			return false
+		}
+		for _, part := range strings.Split(strings.TrimPrefix(v.Label, "data race between "), " and ") {
+			if i := strings.LastIndex(part, "/"); i >= 0 {
+				part = part[i+1:]
+			}
+			if part != "" && strings.Contains(nr.RaceReport, part) {
+				return true
+			}
+		}
+		return false
 	}
 	return false
 }
@@ -371,7 +394,7 @@ func doReplay(repoDir, replayFile, outDir string) int {
 		fmt.Fprintln(os.Stderr, err)
 		return 2
 	}
-	nb := buildNative(repoDir, doc.Dir, filepath.Join(outDir, "native"))
+	nb := buildNative(repoDir, doc.Dir, filepath.Join(outDir, "native"), doc.Kind == "race")
 	if nb.err != nil {
 		fmt.Fprintln(os.Stderr, nb.err)
 		return 2
@@ -431,12 +454,17 @@ func runCheck(prop, tier string, seed int, repoDir string, spec propSpec, outDir
 	totalStates, totalTrans, totalValidated := 0, 0, 0
 	totalObl, totalDis := 0, 0
 	natives := map[string]*nativeBuild{}
+	raceNow := false
 	getNative := func(dir string) *nativeBuild {
-		if nb, ok := natives[dir]; ok {
+		key := dir
+		if raceNow {
+			key += "|race"
+		}
+		if nb, ok := natives[key]; ok {
 			return nb
 		}
-		nb := buildNative(repoDir, dir, filepath.Join(outDir, "native"))
-		natives[dir] = nb
+		nb := buildNative(repoDir, dir, filepath.Join(outDir, "native"), raceNow)
+		natives[key] = nb
 		return nb
 	}
 	knownPrinted := map[string]bool{}
@@ -519,6 +547,8 @@ func runCheck(prop, tier string, seed int, repoDir string, spec propSpec, outDir
 		cfg.SelectChoice = ts.SelectChoice
 		cfg.EnvLazy = ts.EnvLazy
 		cfg.NPBound = ts.NPBound
+		cfg.Race = ts.Race
+		raceNow = ts.Race
 		e.cfg = cfg
 		e.params = ts.Params
 		e.wantModels = true
@@ -609,11 +639,21 @@ func runCheck(prop, tier string, seed int, repoDir string, spec propSpec, outDir
 					fnm := filepath.Join(outDir, fmt.Sprintf("%s-%d.replay.json", h.Name, replayN))
 					jb, _ := json.MarshalIndent(doc, "", " ")
 					os.WriteFile(fnm, jb, 0644)
-					nr := runNative(nb, repoDir, doc, fnm, 60*time.Second)
-					lastOut = nr.Output
-					if reproduced(v, nr) {
-						rep = true
-						repFile = fnm
+					// a violation that depends on the interleaving is replayed several times: the
+					// native run is scheduled by the Go runtime, not by the engine's decision vector
+					reps := 1
+					if v.Kind == "deadlock" || v.Kind == "race" || ts.Sched == 1 {
+						reps = 8
+					}
+					for a := 0; a < reps && !rep; a++ {
+						nr := runNative(nb, repoDir, doc, fnm, 60*time.Second)
+						lastOut = nr.Output
+						if reproduced(v, nr) {
+							rep = true
+							repFile = fnm
+						}
+					}
+					if rep {
 						break
 					}
 					os.Remove(fnm)
